@@ -16,7 +16,7 @@ func init() {
 	Register("C13", &Info{
 		Run:   runC13,
 		Quick: 9000, Thor: 1200000,
-		Rule: "a world = one fingerprint (every parrot by stratum, randomized, generated specs, fingerprinted copies; HelloGolang with Config version bounds left at zero or set explicitly) with a caller Config that may carry its own MinVersion/MaxVersion/ALPN/curves or was used before by a connection of another fingerprint; against (a) the repository or std server capped at each version 1.0-1.3, (b) the reference server acting as a legacy server that negotiates from legacy_version only and ignores supported_versions, at 1.0 / 1.1 / 1.2, (c) the reference server negotiating TLS 1.2 or lower with the RFC 8446 downgrade sentinel in its random; oracle: whenever the client completes, the negotiated version is one its ON-WIRE hello advertised - a member of supported_versions when that extension is present, otherwise within [spec minimum, legacy_version]; with the sentinel and TLS 1.3 on offer the client must abort; non-trivial = the server negotiated (or tried) a version below the client's maximum; distinct = (fingerprint, server kind, version, sentinel)",
+		Rule: "a world = one fingerprint (every parrot by stratum, randomized, generated specs, fingerprinted copies; HelloGolang with Config version bounds left at zero or set explicitly) with a caller Config that may carry its own MinVersion/MaxVersion/ALPN/curves or was used before by a connection of another fingerprint; against (a) the repository or std server capped at each version 1.0-1.3, (b) the reference server acting as a legacy server that negotiates from legacy_version only and ignores supported_versions, at 1.0 / 1.1 / 1.2, (c) the reference server negotiating TLS 1.2 or lower with the RFC 8446 downgrade sentinel in its random, in half of these worlds on a resumed handshake (a first, honest connection cached a ticket); oracle: whenever the client completes, the negotiated version is one its ON-WIRE hello advertised - a member of supported_versions when that extension is present, otherwise within [spec minimum, legacy_version]; with the sentinel and TLS 1.3 on offer the client must abort; non-trivial = the server negotiated (or tried) a version below the client's maximum; distinct = (fingerprint, server kind, version, sentinel)",
 		Assumptions: []string{"the spec minimum of a parrot is read from UTLSIdToSpec (TLSVersMin, or the lowest supported_versions entry, or TLS 1.0)"},
 		Real:        []string{"utls client from /repo", "utls or std server for (a)"},
 		Stub:        []string{"reference server (sim/refsrv) as legacy / sentinel-setting server", "transport, clock, crypto/rand"},
@@ -102,6 +102,19 @@ func runC13(c *Ctx) {
 		}
 	}
 	c.R.Class = fmt.Sprintf("%s/%s %s v=%x peer=%s offered=%x %s%s", f.Kind, f.IDI.Name, kind, ver, peerName(peer), of.Versions, noise, golang)
+	// resumed stratum of the sentinel kind: a first connection to the same (then honest, TLS <= 1.2
+	// only) reference server caches a ticket; the connection under test offers it, and the server
+	// resumes at the old version with the downgrade sentinel in its random
+	if kind == "sentinel" && ch.Bool(50, "sentinel-on-resumption") {
+		ccfg.ClientSessionCache = tls.NewLRUClientSessionCache(4)
+		rcfg.Byz.ForceDowngradeSentinel = false
+		o1 := RunConn(c, w, &ConnSpec{Name: "first", ID: f.IDI.ID, Spec: f.Spec(), CCfg: ccfg, Peer: PeerRef, RefCfg: rcfg, Payload: [][]byte{[]byte("first")}})
+		rcfg.Byz.ForceDowngradeSentinel = true
+		if o1.CDone {
+			c.R.Class += " after-a-cached-session"
+			c.Probe("sentinel-second-connection")
+		}
+	}
 	sp := &ConnSpec{ID: f.IDI.ID, Spec: f.Spec(), CCfg: ccfg, Peer: peer, SCfg: scfg, StdCfg: stdcfg, RefCfg: rcfg, Payload: [][]byte{[]byte("ping")},
 		Setup: func(l *simnet.Link) { l.Frag = ch.Bool(30, "frag") }}
 	o := RunConn(c, w, sp)
